@@ -24,7 +24,7 @@ hprop.install(globals(), hprop.HistoryProperty(
     quick=(16, 60, 40), thorough=(16, 1500, 70), probes=True,
     instr_bias={"batches": True},
 ))
-FLOORS = {"quick": {"probes": 3000, "precedence_checks": 20000, "flag:competing_instructions": 100, "flag:driver_overrode_generator": 30},
+FLOORS = {"quick": {"probes": 600, "precedence_checks": 8000, "flag:competing_instructions": 40, "flag:driver_overrode_generator": 30},
           "thorough": {"probes": 50000}}
 
 
